@@ -302,7 +302,7 @@ CHECK = Check(
     rule=('metropolis: Hypothesis-generated log-targets (Gaussian with random mean/precision in 1-4 dims; the same times a box indicator; '
           'half-space; a target returning NaN outside its domain; flat box; exponential on the positive orthant), valid starting points '
           '(optionally next to the boundary), scalar or per-dimension proposal scales, warm-up 0-20, 1-80 states, seeds; the returned '
-          'chain must be bit-equal to an independent implementation replaying RandomState(seed). nuts: n_iter 2-120, n_adapt, max_depth, '
+          'chain must be bit-equal to an independent implementation replaying RandomState(seed). nuts: n_iter 2-120, n_adapt, max_depth, whole-number start points also handed over as int64 arrays (same chain as from float64 required), '
           'row count, determinism, finite log-target at every returned state. moments: chains of 12000 (NUTS) / 48000 (Metropolis) draws '
           'against analytic means/variances (Gaussian, Gaussian truncated by -inf or by NaN, exponential) with 5-sigma-over-sqrt(ESS lower bound) tolerances. Non-trivial: the chain contains accepted '
           'and rejected moves and, for targets with a support, at least one proposal outside it (metropolis); the chain moved on a '
